@@ -143,7 +143,13 @@ func (f *FieldCopyToGenerator) genZeroValue(fieldName string) func(*j.Group) {
 
 		// v.Null = v.Value == ""
 		if f.ZeroValue != "" {
-			g.Id("v.Null").Op("=").Id(f.i.WithType(f.ValueCastToType)).Parens(j.Id(fieldName)).Op("==").Id(f.ZeroValue)
+			isZero := j.Id(f.i.WithType(f.ValueCastToType)).Parens(j.Id(fieldName)).Op("==").Id(f.ZeroValue)
+			if f.ParentIsOptionalEmbed {
+				// The field is promoted from a nullable embedded message: it can be read only when the
+				// embedded pointer is set, otherwise the attribute is null.
+				isZero = j.Id("obj." + f.ParentIsOptionalEmbedFieldName).Op("==").Nil().Op("||").Add(isZero)
+			}
+			g.Id("v.Null").Op("=").Add(isZero)
 		} else {
 			g.Id("v.Null").Op("=").False()
 		}
